@@ -20,6 +20,7 @@ type c06Case struct {
 	Role  string   `json:"role"`          // client | server
 	Stage string   `json:"stage"`         // see stagesFor
 	Ops   []string `json:"ops"`           // order in which the send operations are attempted
+	Buf   int      `json:"buf,omitempty"` // the channel's buffer size: 0 = 4, -1 = none (unbuffered), otherwise as given
 	Via   string   `json:"via,omitempty"` // "" = the channel's own methods | handler-sender = the Sender a dispatch-loop handler was given while the session was established (client role, stages after establishment)
 }
 
@@ -44,7 +45,7 @@ func (k keptSender) ProcessCommand(context.Context, *lime.RequestCommand) (*lime
 
 func viaHandlerStage(stage string) bool {
 	switch stage {
-	case "established", "finished", "failed-after-established", "peer-closed":
+	case "established", "finished", "failed-after-established", "peer-closed", "finished-by-server":
 		return true
 	}
 	return false
@@ -58,7 +59,17 @@ func stagesFor(role string) []string {
 			"finish-in-progress", "fail-in-progress"}
 	}
 	return []string{"new-before", "new-sent", "negotiating", "in-selector-callback", "authenticating", "in-authenticator-callback", "established", "finished", "failed-handshake", "failed-after-established", "peer-closed",
-		"finishing-said-at-new", "finishing-said-at-auth"}
+		"finishing-said-at-new", "finishing-said-at-auth", "finished-by-server"}
+}
+
+func (c *c06Case) bufSize() int {
+	switch {
+	case c.Buf == 0:
+		return 4
+	case c.Buf < 0:
+		return 0
+	}
+	return c.Buf
 }
 
 type c06Obs struct {
@@ -151,7 +162,7 @@ func runC06Server(c *c06Case) *c06Obs {
 	obs := &c06Obs{}
 	cl, sv := Pipe(PipeOpts{Capture: true})
 	st := lime.VerifNewTCPTransport(sv, nil, true)
-	sc := lime.NewServerChannel(st, 4, srvNode, fixedSid)
+	sc := lime.NewServerChannel(st, c.bufSize(), srvNode, fixedSid)
 	peer := NewRawPeer(cl)
 	ctx, cancel := context.WithTimeout(context.Background(), handshakeTimeout)
 	defer cancel()
@@ -279,7 +290,7 @@ func runC06Client(c *c06Case) *c06Obs {
 	obs := &c06Obs{}
 	cl, sv := Pipe(PipeOpts{Capture: true})
 	ct := lime.VerifNewTCPTransport(cl, nil, false)
-	cc := lime.NewClientChannel(ct, 4)
+	cc := lime.NewClientChannel(ct, c.bufSize())
 	peer := NewRawPeer(sv)
 	ctx, cancel := context.WithTimeout(context.Background(), handshakeTimeout)
 	defer cancel()
@@ -394,6 +405,10 @@ func runC06Client(c *c06Case) *c06Obs {
 	case "failed-after-established":
 		establish()
 		step(M{"id": "A", "from": from, "state": "failed", "reason": M{"code": 1, "description": "no"}})
+	case "finished-by-server":
+		// the server ends the session on its own: nobody on this side asked for it or waits for it
+		establish()
+		step(M{"id": "A", "from": from, "state": "finished"})
 	case "finishing-said-at-new":
 		// a server that answers the handshake with a session in state finishing: never established, whatever the channel makes of it
 		start()
@@ -416,7 +431,7 @@ func runC06Client(c *c06Case) *c06Obs {
 	if !strings.HasPrefix(c.Stage, "finishing-said") {
 		obs.Reached = obs.StateAt == want[c.Stage]
 	}
-	if c.Stage == "failed-after-established" || c.Stage == "failed-handshake" {
+	if c.Stage == "failed-after-established" || c.Stage == "failed-handshake" || c.Stage == "finished-by-server" {
 		// the peer has sent the failed session and everything has settled: the session has failed, whatever the channel
 		// made of the envelope
 		obs.Reached = true
@@ -441,6 +456,7 @@ func runC06Client(c *c06Case) *c06Obs {
 func judgeC06Sends(c *c06Case, obs *c06Obs, o *Outcome) {
 	o.Class("role=" + c.Role)
 	o.Class("stage=" + c.Stage)
+	o.Class(fmt.Sprintf("channel-buffer=%d", c.bufSize()))
 	if c.Via != "" {
 		o.Class("via=" + c.Via)
 	}
@@ -510,8 +526,18 @@ func TestC06Stages(t *testing.T) {
 				opLists = append(opLists, []string{op})
 			}
 			opLists = append(opLists, c06Ops, []string{"ProcessCommand", "SendResponseCommand", "SendRequestCommand", "SendNotification", "SendMessage"})
-			for _, ops := range opLists {
-				c := &c06Case{Role: role, Stage: stage, Ops: ops}
+			for li, ops := range opLists {
+				// (the channel's buffer size spread over the lists: the usual one, none at all, one)
+				c := &c06Case{Role: role, Stage: stage, Ops: ops, Buf: []int{0, -1, 1}[li%3]}
+				o := &Outcome{}
+				var obs *c06Obs
+				rec.Journal(c)
+				synctest.Test(t, func(t *testing.T) { obs = runC06(c) })
+				judgeC06Sends(c, obs, o)
+				rec.Eval(c, o)
+			}
+			for _, buf := range []int{-1, 1} {
+				c := &c06Case{Role: role, Stage: stage, Ops: c06Ops, Buf: buf}
 				o := &Outcome{}
 				var obs *c06Obs
 				rec.Journal(c)
@@ -547,6 +573,7 @@ func TestC06(t *testing.T) {
 		role := rapid.SampledFrom([]string{"server", "client"}).Draw(rt, "role")
 		c := &c06Case{Role: role, Stage: rapid.SampledFrom(stagesFor(role)).Draw(rt, "stage")}
 		c.Ops = rapid.SliceOfNDistinct(rapid.SampledFrom(c06Ops), 1, 5, func(s string) string { return s }).Draw(rt, "ops")
+		c.Buf = rapid.SampledFrom([]int{0, 0, -1, 1}).Draw(rt, "buf")
 		if role == "client" && viaHandlerStage(c.Stage) && rapid.Bool().Draw(rt, "viaHandler") {
 			c.Via = "handler-sender"
 			c.Ops = rapid.SliceOfNDistinct(rapid.SampledFrom(c06Ops[:4]), 1, 4, func(s string) string { return s }).Draw(rt, "opsVia")
